@@ -244,6 +244,8 @@ class Contract:
         legacy_ctx=False,
         stateful=False,
         name=None,
+        generic_alt=None,
+        spelled_empty=False,
     ):
         self.mod = mod
         self.name = name or cc_upper_camel(mod)
@@ -266,6 +268,8 @@ class Contract:
             u.err = err
         self.custom_chain = custom_chain
         self.generic = generic  # None or concrete type substituted for T
+        self.spelled_empty = spelled_empty  # `#[sv::custom(msg=Empty, query=Empty)]` written out, interfaces bridged
+        self.generic_alt = generic_alt  # a second instantiation of the same program (own SPEC / glue / cid)
         self.overrides = list(overrides)
         self.replies = replies
         self.entry_points = entry_points
@@ -786,6 +790,8 @@ def emit_contract_inner(c, iface_path):
         )
     if c.custom_chain:
         w("    #[sv::custom(msg=CMsg, query=CQuery)]")
+    elif c.spelled_empty:
+        w("    #[sv::custom(msg=Empty, query=Empty)]")
     for a in ov_attrs:
         w(a)
     if c.replies:
@@ -882,6 +888,22 @@ def emit_contract_inner(c, iface_path):
     if c.family == "f2":
         w(emit_absence_probe(c))
     w(emit_entry_glue(c, iface_path))
+    if c.generic_alt:
+        # the same program text instantiated with another type: its own SPEC, glue and cid; the
+        # generated entry points exist for the first instantiation only
+        import copy
+
+        a = copy.copy(c)
+        a.generic = c.generic_alt
+        a.generic_alt = None
+        a.cid = "%s@%s" % (c.cid, c.generic_alt)
+        a.entry_points = False
+        w("    pub mod alt {")
+        w("        use super::*;")
+        w('        pub const CID: &str = "%s";' % a.cid)
+        w(emit_spec(a))
+        w(emit_entry_glue(a, iface_path))
+        w("    }")
     w("}")
     return "\n".join(L)
 
@@ -1102,7 +1124,9 @@ def emit_entry_glue(c, iface_path):
         """    pub fn peer_exec(storage: &dyn Storage, addr: &Addr, form: u8, slot: Option<&str>, method: &str, args: &[u8], funds: Option<Vec<Coin>>) -> StdResult<WasmMsg> {
         type TT = %s;
         let v = parse_args(args)?;
-        let b: ExecutorBuilder<(EmptyExecutorBuilderState, TT)> = match form {
+        // (bit 4 of `form`: the funds are set twice, some other coins first)
+        let twice = form & 0x10 != 0 && funds.is_some();
+        let b: ExecutorBuilder<(EmptyExecutorBuilderState, TT)> = match form & 0x0f {
             0 => Remote::<TT>::new(addr.clone()).executor(),
             1 => Remote::<TT>::borrowed(addr).executor(),
             2 => ExecutorBuilder::<(EmptyExecutorBuilderState, TT)>::new(addr),
@@ -1112,6 +1136,7 @@ def emit_entry_glue(c, iface_path):
                 r.executor()
             }
         };
+        let b = if twice { b.with_funds(vec![Coin::new(7u128, "decoy")]) } else { b };
         let b = match funds { Some(f) => b.with_funds(f), None => b };
         let ready: ExecutorBuilder<sylvia::types::ReadyExecutorBuilderState> = match method {
             %s
@@ -1211,7 +1236,9 @@ def emit_dyn_peer(family, i, t, chain, iface_path):
     out.append(
         """    pub fn peer_exec(storage: &dyn Storage, addr: &Addr, form: u8, slot: Option<&str>, method: &str, args: &[u8], funds: Option<Vec<Coin>>) -> StdResult<WasmMsg> {
         let v = parse_args(args)?;
-        let b: ExecutorBuilder<(EmptyExecutorBuilderState, TT)> = match form {
+        // (bit 4 of `form`: the funds are set twice, some other coins first)
+        let twice = form & 0x10 != 0 && funds.is_some();
+        let b: ExecutorBuilder<(EmptyExecutorBuilderState, TT)> = match form & 0x0f {
             0 => Remote::<TT>::new(addr.clone()).executor(),
             1 => Remote::<TT>::borrowed(addr).executor(),
             2 => ExecutorBuilder::<(EmptyExecutorBuilderState, TT)>::new(addr),
@@ -1221,6 +1248,7 @@ def emit_dyn_peer(family, i, t, chain, iface_path):
                 r.executor()
             }
         };
+        let b = if twice { b.with_funds(vec![Coin::new(7u128, "decoy")]) } else { b };
         let b = match funds { Some(f) => b.with_funds(f), None => b };
         let ready: ExecutorBuilder<sylvia::types::ReadyExecutorBuilderState> = match method {
             %s
@@ -1555,6 +1583,21 @@ def family_f3(rng):
             err="std",
         )
     )
+    # a generic contract with reply tables: a pair on one name, one success method for two names
+    # that each have an error method of their own
+    g = mk(
+        "gen_a",
+        [
+            Handler("exec", "put", [Arg("item", "T")]),
+            Handler("reply", "pair_ok", reply=Reply(["pair"], "success", data="RawOpt", **PAY_ONE)),
+            Handler("reply", "pair_err", reply=Reply(["pair"], "error", **PAY_ONE)),
+            Handler("reply", "both_ok", reply=Reply(["ga", "gb"], "success", **PAY_ONE)),
+            Handler("reply", "ga_err", reply=Reply(["ga"], "error", **PAY_ONE)),
+            Handler("reply", "gb_err", reply=Reply(["gb"], "error", **PAY_ONE)),
+        ],
+    )
+    g.generic = "Pt"
+    cs.append(g)
     PAY_BIG = dict(payload=[Arg("amount", "u128"), Arg("delta", "i128"), Arg("script", "Script")])
     cs.append(
         mk(
@@ -1705,6 +1748,7 @@ def family_f1(rng):
                 Handler("migrate", "migrate"),
             ],
             generic="Kd",
+            generic_alt="String",
             uses=[Use(lib["alpha"])],
             err="own",
             tags=T + ("regular",),
@@ -1885,6 +1929,26 @@ def family_f1(rng):
             tags=T + ("regular",),
         )
     )
+    # a generic contract whose concrete type has generic arguments of its own (with defaults)
+    cs.append(
+        Contract(
+            "pfb",
+            "f1",
+            [
+                Handler("instantiate", "instantiate", [Arg("a", "u32")]),
+                Handler("exec", "go"),
+                Handler("exec", "put", [Arg("item", "T"), Arg("times", "u8")]),
+                Handler("query", "echo", [Arg("item", "T")], ret="T"),
+                Handler("query", "probe", [Arg("x", "u32")], ret="u64", failarg=True),
+                Handler("sudo", "nudge", [Arg("item", "T")]),
+                Handler("migrate", "migrate"),
+            ],
+            generic="Boxed<u32>",
+            uses=[Use(lib["gamma"], t="Boxed<u32>")],
+            err="std",
+            tags=T + ("regular",),
+        )
+    )
     # handlers whose context parameter is written with the type of another kind built from the
     # same parts (the annotation decides the kind, not the type)
     cs.append(
@@ -1946,6 +2010,19 @@ def family_f1(rng):
             uses=[Use(lib["eps"])],
             err="std",
             tags=T + ("regular",),
+        )
+    )
+    # the chain's own (empty) custom types written out, and an interface bridged into it: the
+    # bridge is the same code, and a custom-typed message in a bridged response is still refused
+    cs.append(
+        Contract(
+            "pbe",
+            "f1",
+            std_handlers(rng, extra=[Handler("exec", "own_exec", [Arg("n", "u32")])]),
+            uses=[Use(lib["alpha"], custom_msg=True), Use(lib["eps"], custom_msg=True, custom_query=True)],
+            err="std",
+            spelled_empty=True,
+            tags=("dispatch", "regular", "bridged_empty"),
         )
     )
     # a contract value with in-memory state: the deployment that is handed a value must run
@@ -2066,6 +2143,19 @@ def family_f2(rng):
         if n % 2 == 0:
             hs.append(Handler("reply", "on_done", reply=Reply([], "always", payload_raw=True, payload=[Arg("payload", "Binary")])))
         cs.append(Contract("zg" + "abcd"[n], "f2", hs, uses=[Use(side)], generic=["Pt", "Kd", "String", "u64"][n], err=["own", "std"][n % 2], overrides=sub, replies=(n % 2 == 0), tags=("override", "regular")))
+    # generic programs with a reply handler of the old style (no `replies` feature)
+    for n, sub in enumerate([[], ["sudo"]]):
+        hs = [
+            Handler("instantiate", "instantiate", [Arg("first", "T")]),
+            Handler("exec", "go"),
+            Handler("exec", "put", [Arg("item", "T")]),
+            Handler("query", "probe", [Arg("x", "u32")], ret="u64", failarg=True),
+            Handler("sudo", "nudge", [Arg("n", "u32")]),
+            Handler("reply", "reply", reply=Reply([], "always", legacy=True)),
+        ]
+        if n == 1:
+            hs.append(Handler("migrate", "migrate", [Arg("item", "T")]))
+        cs.append(Contract("zg" + "ef"[n], "f2", hs, uses=[Use(side)], generic=["Pt", "String"][n], err=["std", "own"][n], overrides=sub, replies=False, tags=("override", "regular")))
     return [side], cs
 
 
@@ -2109,6 +2199,7 @@ def family_f5(rng):
         assoc=["ExecC"],
     )
     onlyx = Iface("onlyxc", [Handler("exec", "only_exec", [Arg("n", "u8")]), Handler("sudo", "only_sudo")])
+    sudoq = Iface("sudoqc", [Handler("sudo", "set_fee", [Arg("fee", "u32")]), Handler("sudo", "sq_tick"), Handler("query", "fee", ret="u64")], assoc=["QueryC"])
     eps = Iface("epsc", [Handler("query", "eps_one", ret="bool"), Handler("query", "eps_two", [Arg("list", "Vec<u32>")], ret="Vec<u32>", failarg=True)])
     RAW = dict(payload_raw=True, payload=[Arg("payload", "Binary")])
 
@@ -2144,7 +2235,8 @@ def family_f5(rng):
             tags=T,
         )
     )
-    return [alpha, explicit, beta, kq, km, eps, onlyx], cs
+    cs.append(Contract("cg", "f5", std_handlers(rng, sudo=False) + alw(), uses=[Use(sudoq, err="own"), Use(onlyx)], err="own", custom_chain=True, replies=True, tags=T))
+    return [alpha, explicit, beta, kq, km, eps, onlyx, sudoq], cs
 
 
 FAMILIES = {"f1": family_f1, "f2": family_f2, "f3": family_f3, "f5": family_f5}
@@ -2175,7 +2267,8 @@ thiserror = { workspace = true }
         ).rsplit("}", 1)[0]
         lib.append("pub mod %s;" % c.mod)
     lib.append(
-        "pub fn entries() -> Vec<Entry> {\n    vec![\n%s\n    ]\n}" % "\n".join("        %s::entry()," % c.mod for c in contracts)
+        "pub fn entries() -> Vec<Entry> {\n    vec![\n%s\n    ]\n}"
+        % "\n".join(["        %s::entry()," % c.mod for c in contracts] + ["        %s::alt::entry()," % c.mod for c in contracts if c.generic_alt])
     )
     # `dyn Interface` handle types used by the contracts of this family
     combos = []
